@@ -25,6 +25,7 @@ from ..index import ClassInfo, FuncInfo
 from ..oracles import load
 from ..report import Registry, chain, sub
 from ._helpers_na_c import ClassVal, FuncVal, Inst, Lite, ModelRaise, Opaque, PyStub, Unsupported
+from ._helpers_str2_z1 import NotUnderstood, SqliteRejects, sqlite_primary_key
 
 R = Registry(
     "C15",
@@ -183,7 +184,7 @@ class TableModel:
     """a table description (python data) and its model objects in a World"""
 
     def __init__(self, W: World, name: str, columns, pk=None, pk_name=None, fks=(), uniques=(), checks=(),
-                 schema=None, others=()):
+                 schema=None, others=(), table_opts=None):
         self.W, self.name, self.schema = W, name, schema
         self.columns = list(columns)          # (name, type name, nullable)
         self.pk = list(pk if pk is not None else [self.columns[0][0]])
@@ -192,6 +193,8 @@ class TableModel:
         self.tables: Dict[str, Inst] = {}
         self.cols: Dict[Tuple[str, str], Inst] = {}
         self.table = self._table(name, schema)
+        for k, v in (table_opts or {}).items():       # dialect level table options (Table(..., <dialect>_<k>=v))
+            self.table.attrs["dialect_options"][W.name][k] = v
         for cname, tname, nullable in self.columns:
             self._column(self.table, cname, tname, nullable, cname in self.pk)
         for f in self.fks:
@@ -229,6 +232,8 @@ class TableModel:
         for f in self.fks:
             els = [Inst(None, {"parent": self.cols[(self.name, lc)], "column": self.cols[(f["rtable"], rc)]})
                    for lc, rc in zip(f["cols"], f["rcols"])]
+            for el in els:                    # Column.foreign_keys: the ForeignKey elements of the column
+                el.attrs["parent"].attrs["foreign_keys"].add(el)
             fk = self._mark(W.item(SCH + "ForeignKeyConstraint", name=f.get("name"), elements=els,
                                    ondelete=f.get("ondelete"), onupdate=f.get("onupdate"), match=f.get("match"),
                                    deferrable=f.get("deferrable"), initially=f.get("initially"), use_alter=False,
@@ -285,8 +290,12 @@ class SqliteCatalog:
     _PRAGMA = re.compile(r'''^\s*PRAGMA\s+(?:(?:"((?:[^"]|"")+)"|(\w+))\.)?(\w+)\s*\(\s*(?:"((?:[^"]|"")+)"|(\w+))\s*\)\s*$''',
                          re.I)
 
-    def __init__(self, tm: TableModel, table_sql: str, indexes=(), type_texts: Optional[Dict[str, str]] = None):
+    def __init__(self, tm: TableModel, table_sql: str, indexes=(), type_texts: Optional[Dict[str, str]] = None,
+                 pk_from_text: bool = False):
         self.o = load("sqlite_catalog.json")
+        # primary key membership as SQLite derives it from the statement it was given (oracle
+        # sqlite_primary_key_grammar.json); without it the membership of the table description is reported
+        self.pk = sqlite_primary_key(table_sql) if pk_from_text else list(tm.pk)
         self.tm, self.table_sql = tm, table_sql.strip()
         self.indexes = list(indexes)         # (name, cols, unique, where, sql)
         self.type_texts = dict(type_texts or {})
@@ -315,7 +324,7 @@ class SqliteCatalog:
                 return []
             return [self._row(pragma, cid=i, name=n, type=self.type_texts.get(n) or tm.type_text(n),
                               notnull=0 if (nl and n not in tm.pk) else 1,
-                              dflt_value=None, pk=(tm.pk.index(n) + 1 if n in tm.pk else 0), hidden=0)
+                              dflt_value=None, pk=(self.pk.index(n) + 1 if n in self.pk else 0), hidden=0)
                     for i, (n, t, nl) in enumerate(tm.columns)]
         if table_name != tm.name and pragma != "index_info":
             return []
@@ -826,6 +835,141 @@ def r4(ctx):
             problems.append("reader warned: " + "; ".join(W.L.warnings))
             W.L.warnings.clear()
         ctx.check(not problems, key, "; ".join(problems) + f" -- DDL: {itext}", "read back", W.dcls.loc, [itext, repr(got)])
+    W.analysed()
+
+
+# ============================================================================================ R6: SQLite primary key
+
+def _sqlite_pk_scenarios():
+    """table descriptions over every input the DDL compiler's primary key code distinguishes: the dialect level
+    table option that moves the PRIMARY KEY clause into the column definition, the shape / type of the key, a
+    foreign key on the key column, a constraint name"""
+    shapes = [
+        ("integer", [("id", "INTEGER", False), ("a", "INTEGER", True)], ["id"], None),
+        ("integer-named", [("id", "INTEGER", False), ("a", "INTEGER", True)], ["id"], "pk_c"),
+        ("biginteger", [("id", "BIGINT", False), ("a", "INTEGER", True)], ["id"], None),
+        ("varchar", [("id", "VARCHAR", False), ("a", "INTEGER", True)], ["id"], None),
+        ("composite", [("a", "INTEGER", False), ("id", "INTEGER", False)], ["id", "a"], None),
+    ]
+    out = []
+    for autoinc in (False, True):
+        for sname, cols, pk, pk_name in shapes:
+            for with_fk in (False, True):
+                fks = [{"name": "fk1", "cols": ["id"], "rtable": "p", "rcols": ["id"]}] if with_fk else []
+                sid = f"{sname}{'+fk' if with_fk else ''}{'+autoincrement' if autoinc else ''}"
+                out.append((sid, dict(columns=cols, pk=pk, pk_name=pk_name, fks=fks,
+                                      table_opts={"autoincrement": True} if autoinc else None)))
+    return out
+
+
+@R.rule("C15-R6", floor=20, template="T-TABLE",
+        desc="SQLite: the CREATE TABLE text the DDL compiler writes declares the table's primary key exactly once "
+             "(column level or table level; SQLite's grammar from an oracle decides what the backend makes of the "
+             "text) for every combination of sqlite_autoincrement, key shape / type and a foreign key on the key "
+             "column, and get_pk_constraint reads the same columns back in key order")
+def r6(ctx):
+    W = World(ctx, SQLITE)
+    for sid, kw in _sqlite_pk_scenarios():
+        key = _key(SQLITE, "get_pk_constraint", f"primary-key-written-once-and-read-back[{sid}]")
+        kw = dict(kw)
+        cols = kw.pop("columns")
+        tm = TableModel(W, "c", cols, **kw)
+        try:
+            text = _guard(ctx, f"sqlite writer {sid}", tm.create_table_text)
+        except ModelRaise as e:
+            if e.cls_name == "CompileError":
+                ctx.ok(key, f"not writable on this dialect ({e.message})", nontrivial=False)
+            else:
+                ctx.violation(key, f"the DDL compiler raises {e}", W.dcls.loc)
+            continue
+        try:
+            SqliteCatalog(tm, text, pk_from_text=True)
+        except SqliteRejects as e:
+            if e.about == "autoincrement" and "INTEGER" in str(e):
+                # documented limit of the backend, not a disagreement of writer and reader: the table cannot be
+                # created, so there is nothing to reflect (SQLite dialect documentation, "Allowing autoincrement
+                # behavior SQLAlchemy types other than Integer/INTEGER")
+                ctx.ok(key, f"not an input: SQLite does not accept this definition ({e})", nontrivial=False)
+                continue
+            ctx.violation(key, f"SQLite rejects the CREATE TABLE statement the DDL compiler writes for a table with "
+                               f"primary key {tm.pk!r}: {e} -- DDL: {' '.join(text.split())}", W.dcls.loc, [text.strip()])
+            continue
+        except NotUnderstood as e:
+            raise AnalysisError(f"C15-R6 model: {sid}: {e}")
+        declared = sqlite_primary_key(text)
+        try:
+            got = _guard(ctx, f"sqlite reader {sid}", W.L.call_method, W.dialect, "get_pk_constraint", W.conn, tm.name)
+        except ModelRaise as e:
+            ctx.violation(key, f"get_pk_constraint raises {e} for the table the DDL compiler wrote", W.dcls.loc,
+                          [text.strip()])
+            continue
+        problems = []
+        if declared != list(tm.pk):
+            problems.append(f"the statement the DDL compiler writes declares the primary key {declared!r}, the table "
+                            f"was defined with {tm.pk!r}" + (" (no PRIMARY KEY clause at all: the column definition and "
+                                                            "the table level constraint each leave it to the other)"
+                                                            if not declared else ""))
+        have = list(got.get("constrained_columns") or []) if isinstance(got, dict) else got
+        if have != list(tm.pk):
+            problems.append(f"get_pk_constraint reads back {have!r}")
+        ctx.check(not problems, key, "; ".join(problems) + f" -- DDL: {' '.join(text.split())}", "declared once, read back",
+                  W.dcls.loc, [text.strip(), repr(got)])
+    W.analysed()
+
+
+# ============================================================================================ R7: PostgreSQL referred schema
+
+def _pg_schema_scenarios():
+    o = load("pg_search_path.json")
+    visible = list(o["search_path"])
+    default = o["default_schema"]
+    off = list(o["schemas_off_the_search_path"])
+    reflect = [None, default] + [s for s in visible if s != default] + off
+    targets = [default] + [s for s in visible if s != default] + off
+    return o, [(s, t, ign) for ign in (False, True) for s in reflect for t in targets]
+
+
+@R.rule("C15-R7", floor=24, template="T-TABLE",
+        desc="PostgreSQL: for every combination of (schema the table is reflected with, schema the referenced table "
+             "lives in, postgresql_ignore_search_path) the `referred_schema` get_multi_foreign_keys reports names the "
+             "schema the referenced table lives in -- or is None where a schema-less name reaches it (search_path / "
+             "default schema, oracle pg_search_path.json); catalog text as pg_get_constraintdef() prints it (qualified "
+             "iff not visible)")
+def r7(ctx):
+    o, scen = _pg_schema_scenarios()
+    visible, default = set(o["search_path"]), o["default_schema"]
+    W = World(ctx, PG, paramstyle="named", default_schema_name=default, server_version_info=(16, 0))
+    L = W.L
+    for schema, target, ignore in scen:
+        sid = f"reflect={schema},target={target}" + (",ignore_search_path" if ignore else "")
+        key = _key(PG, "get_multi_foreign_keys", f"referred-schema-is-where-the-target-lives[{sid}]")
+        f = {"name": "fk1", "cols": ["pid"], "rtable": "p", "rcols": ["id"], "ondelete": "CASCADE"}
+        printed = dict(f, rschema=target) if (target not in visible and o["constraintdef_qualifies_iff_not_visible"]) else f
+        tm = _fk_table(W, [dict(f)])
+        condef = _pg_condef(W, printed)
+        rows = [(tm.name, f["name"], condef, target, None)]
+        W.conn.stubs["execute"] = _first_then_empty(_Result(rows=rows))
+        try:
+            got = _guard(ctx, f"postgresql reader {sid}", L.call_method, W.dialect, "get_multi_foreign_keys", W.conn,
+                         schema, [tm.name], Opaque("scope"), Opaque("kind"), postgresql_ignore_search_path=ignore)
+            got = dict(list(got)) if not isinstance(got, dict) else got
+            lst = got.get((schema, tm.name))
+        except ModelRaise as e:
+            ctx.violation(key, f"get_multi_foreign_keys raises {e} for catalog text {condef!r}", W.dcls.loc, [condef])
+            continue
+        if not isinstance(lst, list) or len(lst) != 1 or not isinstance(lst[0], dict):
+            ctx.violation(key, f"get_multi_foreign_keys returns {lst!r} for catalog text {condef!r}", W.dcls.loc, [condef])
+            continue
+        r = lst[0].get("referred_schema", "<missing>")
+        reach = (target == default) if ignore else (target in visible)
+        ok = r == target or (r is None and reach)
+        ctx.check(ok, key,
+                  f"table reflected with schema={schema!r}, foreign key to a table that lives in schema {target!r} "
+                  f"(pg_get_constraintdef prints {condef!r}, its schema column says {target!r}): referred_schema is "
+                  f"{r!r}, which names " + ("no schema through which the table is reached" if r is None else
+                                            "a schema the referenced table does not live in")
+                  + ": Table reflection / a re-created table refers to another relation",
+                  f"referred_schema {r!r}", W.dcls.loc, [condef, repr(lst)])
     W.analysed()
 
 
@@ -1473,6 +1617,164 @@ R.mutant("benign-r4-index-record-literal", _SQ,
                 "dialect_options": {},
             }
             indexes.append(record)'''), None)
+
+# ---- C15-R6 (SQLite primary key declared once and read back) --------------------------------------------
+R.mutant("r6-table-level-pk-suppressed-also-for-fk-column", _SQ,        # essence of seeded C15_1
+         sub("""                and issubclass(c.type._type_affinity, sqltypes.Integer)
+                and not c.foreign_keys
+            ):
+                return None""", """                and issubclass(c.type._type_affinity, sqltypes.Integer)
+            ):
+                return None"""), "C15-R6")
+R.mutant("r6-inline-pk-also-for-fk-column", _SQ,
+         sub("""                and issubclass(column.type._type_affinity, sqltypes.Integer)
+                and not column.foreign_keys
+            ):
+                colspec += " PRIMARY KEY\"""", """                and issubclass(column.type._type_affinity, sqltypes.Integer)
+            ):
+                colspec += " PRIMARY KEY\""""), "C15-R6")
+R.mutant("r6-suppression-not-limited-to-single-column-keys", _SQ,
+         sub("""        if len(constraint.columns) == 1:
+            c = list(constraint)[0]
+            if (
+                c.primary_key""", """        if len(constraint.columns) >= 1:
+            c = list(constraint)[0]
+            if (
+                c.primary_key"""), "C15-R6")
+R.mutant("r6-inline-pk-for-any-type", _SQ,
+         sub("""                and len(column.table.primary_key.columns) == 1
+                and issubclass(column.type._type_affinity, sqltypes.Integer)
+                and not column.foreign_keys""", """                and len(column.table.primary_key.columns) == 1
+                and not column.foreign_keys"""), "C15-R6")
+R.mutant("benign-r6-shared-inline-condition-in-helper", _SQ,
+         chain(sub("""            if (
+                column.table.dialect_options["sqlite"]["autoincrement"]
+                and len(column.table.primary_key.columns) == 1
+                and issubclass(column.type._type_affinity, sqltypes.Integer)
+                and not column.foreign_keys
+            ):
+                colspec += " PRIMARY KEY\"""", """            if self._renders_inline_autoincrement_key(column):
+                colspec += " PRIMARY KEY\""""),
+               sub("""        if len(constraint.columns) == 1:
+            c = list(constraint)[0]
+            if (
+                c.primary_key
+                and c.table.dialect_options["sqlite"]["autoincrement"]
+                and issubclass(c.type._type_affinity, sqltypes.Integer)
+                and not c.foreign_keys
+            ):
+                return None
+""", """        members = list(constraint)
+        if len(members) == 1 and self._renders_inline_autoincrement_key(
+            members[0]
+        ):
+            return None
+"""),
+               sub("""    def visit_primary_key_constraint(self, constraint, **kw):
+        # for columns with sqlite_autoincrement=True,""", """    def _renders_inline_autoincrement_key(self, col):
+        if not col.primary_key or col.foreign_keys:
+            return False
+        owner = col.table
+        if len(owner.primary_key.columns) != 1:
+            return False
+        wants_it = owner.dialect_options["sqlite"]["autoincrement"]
+        return bool(wants_it) and issubclass(
+            col.type._type_affinity, sqltypes.Integer
+        )
+
+    def visit_primary_key_constraint(self, constraint, **kw):
+        # for columns with sqlite_autoincrement=True,""")), None)
+R.mutant("benign-r6-suppression-as-inverted-branches-with-aliases", _SQ,
+         sub("""        if len(constraint.columns) == 1:
+            c = list(constraint)[0]
+            if (
+                c.primary_key
+                and c.table.dialect_options["sqlite"]["autoincrement"]
+                and issubclass(c.type._type_affinity, sqltypes.Integer)
+                and not c.foreign_keys
+            ):
+                return None
+""", """        if len(constraint.columns) != 1:
+            inline = False
+        else:
+            only = list(constraint)[0]
+            table_opts = only.table.dialect_options["sqlite"]
+            if only.foreign_keys or not only.primary_key:
+                inline = False
+            elif not table_opts["autoincrement"]:
+                inline = False
+            else:
+                inline = issubclass(only.type._type_affinity, sqltypes.Integer)
+        if inline:
+            return None
+"""), None)
+
+# ---- C15-R7 (PostgreSQL referred schema) ---------------------------------------------------------------
+R.mutant("r7-unqualified-target-always-gets-the-reflecting-schema", _PGF,     # essence of seeded C15_2
+         sub("""            elif schema is not None and schema == conschema:""", """            elif schema is not None:"""), "C15-R7")
+R.mutant("r7-ignore-search-path-uses-reflecting-schema-for-any-target", _PGF,
+         sub("""                if conschema != self.default_schema_name:
+                    referred_schema = conschema
+                else:""", """                if conschema != self.default_schema_name:
+                    referred_schema = schema
+                else:"""), "C15-R7")
+R.mutant("r7-same-schema-test-inverted", _PGF,
+         sub("""            elif schema is not None and schema == conschema:""",
+             """            elif schema is not None and schema != conschema:"""), "C15-R7")
+R.mutant("benign-r7-schema-resolution-in-helper", _PGF,
+         chain(sub("""            if postgresql_ignore_search_path:
+                # when ignoring search path, we use the actual schema
+                # provided it isn't the "default" schema
+                if conschema != self.default_schema_name:
+                    referred_schema = conschema
+                else:
+                    referred_schema = schema
+            elif referred_schema:
+                # referred_schema is the schema that we regexp'ed from
+                # pg_get_constraintdef().  If the schema is in the search
+                # path, pg_get_constraintdef() will give us None.
+                referred_schema = preparer._unquote_identifier(referred_schema)
+            elif schema is not None and schema == conschema:
+                # If the actual schema matches the schema of the table
+                # we're reflecting, then we will use that.
+                referred_schema = schema
+""", """            referred_schema = self._target_schema_of_fk(
+                preparer,
+                schema,
+                conschema,
+                referred_schema,
+                postgresql_ignore_search_path,
+            )
+"""),
+               sub("""    def get_multi_foreign_keys(
+        self,
+        connection,""", """    def _target_schema_of_fk(
+        self, preparer, own_schema, actual, printed, ignore_search_path
+    ):
+        if not ignore_search_path:
+            if printed:
+                return preparer._unquote_identifier(printed)
+            same = own_schema is not None and own_schema == actual
+            return own_schema if same else printed
+        if actual == self.default_schema_name:
+            return own_schema
+        return actual
+
+    def get_multi_foreign_keys(
+        self,
+        connection,""")), None)
+R.mutant("benign-r7-branches-inverted-and-actual-schema-preferred", _PGF,
+         sub("""            elif schema is not None and schema == conschema:
+                # If the actual schema matches the schema of the table
+                # we're reflecting, then we will use that.
+                referred_schema = schema
+""", """            else:
+                in_own_schema = conschema == schema
+                if schema is None or not in_own_schema:
+                    pass
+                else:
+                    referred_schema = conschema
+"""), None)
 
 # ---- C15-R5 (record keys) ------------------------------------------------------------------------------
 R.mutant("r5-sqlite-fk-option-key-misspelt", _SQ,
